@@ -198,7 +198,7 @@ func goDied(stderr string) bool {
 	return strings.Contains(stderr, "panic: ") || strings.Contains(stderr, "fatal error: ") || strings.Contains(stderr, "goroutine ")
 }
 
-var frameRe = regexp.MustCompile(`(?m)^(github\.com/bmeg/grip[^\s(]*|verifharness[^\s(]*)\(`)
+var frameRe = regexp.MustCompile(`(?m)^((?:github\.com/bmeg/grip|verifharness)[^\n]*?)\((?:[^()\n]*|\.\.\.)\)\s*$`)
 
 // Site extracts a short, stable crash site from a Go panic trace: the panic
 // message plus the first grip frame.
